@@ -19,7 +19,16 @@ fn fm_step(mapping: &str, st: &mut FmState, mappings: &mut Vec<HermesScopeOffset
     let mut column = st.column;
     let mut name_index = st.name_index;
     let mut line = st.line;
+    // `nums` is a scratch buffer carried across iterations (and, in decode_hermes, across
+    // sources): whatever an earlier iteration left in it must not matter
     let mut nums: Vec<i64> = Vec::with_capacity(16);
+    let residue: u8 = kani::any();
+    if residue >= 1 {
+        nums.push(kani::any());
+    }
+    if residue >= 2 {
+        nums.push(kani::any());
+    }
     for _once in 0..1 {
         /*@LIFT hermes_mapping_body@*/
     }
